@@ -1,19 +1,53 @@
 import AfkakProofs.Consumer.Trace
 /-!
 # C13 — stop and shutdown leave nothing running and report once
+Property theorems only; helper lemmas live in `AfkakProofs/Consumer/`.
 -/
 namespace Afkak.Props.C13
 open Afkak.Consumer Afkak.Monitor Afkak.Proofs.Consumer
+
+/-- The Deferred returned by `start()` fires at most once per run, and only while that run is on
+    (never between the return of `stop()` and the next `start()`), on every trace - whatever the
+    events, cancel outcomes, commit outcomes and re-entrant calls. -/
+theorem C13_start_fires_at_most_once (cfg : Cfg) (script : List PEntry) (evs : List Ev) :
+    C13.firesOnceOk (trace cfg script evs) = true :=
+  accepts_trace _ _ cfg script evs (run_top cfg script evs).1.fo.foOk
+
+/-- What `stop()` leaves behind, from EVERY reachable state (any point of any history, any cancel
+    outcome, a graceful shutdown pending or not): the consumer is stopped, no `_process_messages`
+    generator is suspended on a processor result, no refetch is scheduled, no uncancelled fetch/offset
+    request is outstanding and no reply is parked. -/
+theorem C13_stop_leaves_nothing_fetching (cfg : Cfg) (script : List PEntry) (evs : List Ev) :
+    let s := run cfg script evs
+    let s' := stopCore cfg (opsN cfg cfg.depth) s
+    s'.startD = .none ∧ s'.proc = none ∧ retryPending s'.retryCall = false ∧
+      activeReq s'.requestD = none ∧ s'.parked = none := by
+  intro s s'
+  have ht := run_top cfg script evs
+  have hq := stopCore_quiet_any (cfg := cfg) (opsN_quiet cfg cfg.depth) (opsN_procNone cfg cfg.depth) s
+  have hc := stopCore_calm_any (cfg := cfg) (opsN_calm cfg cfg.depth) (opsN_procNone cfg cfg.depth) s ht.1.sf.parkedBlock
+  exact ⟨stopCore_startD s, hq.1, hq.2, hc.2.1, hc.2.2⟩
 
 /-- `stop()` called when the consumer is not running raises `RestopError` and changes nothing. -/
 theorem C13_stop_when_stopped (cfg : Cfg) (inner : Ops) (s : St) (h : s.startD = .none) :
     stop cfg inner s = emit .raisedRestop s := by
   simp [stop, h]
 
+/-- A stopped consumer can be started again: `start()` on a stopped consumer is accepted and (no
+    stale request being in the way) immediately issues the request its start offset calls for. -/
+theorem C13_restartable (cfg : Cfg) (off : Int) (s : St) (h : s.startD = .none) (hr : s.requestD = .none) :
+    (start cfg off s).startD ≠ .none ∧ (start cfg off s).requestD ≠ .none := by
+  unfold start doFetch startErrback errbackRaises emit
+  simp only [h, hr]
+  refine ⟨?_, ?_⟩ <;> (repeat' split) <;> simp_all
+
 end Afkak.Props.C13
 
 /- OBLIGATIONS
+C13_start_fires_at_most_once
+C13_stop_leaves_nothing_fetching
 C13_stop_when_stopped
+C13_restartable
 -/
 /- OPEN_STATEMENTS
 -/
